@@ -236,6 +236,11 @@ def cmd_check(prop, tier, base_seed, workers, no_selftest=False, limit=None):
     os.makedirs(os.path.join(OUT, 'evidence'), exist_ok=True)
     with open(os.path.join(OUT, 'evidence', prop + '.json'), 'w') as f:
         json.dump(evidence, f, indent=1, sort_keys=True, default=repr)
+    if tier == 'thorough':
+        # the per-check evidence file is rewritten by every run; keep the deep run's record as well
+        os.makedirs(os.path.join(OUT, 'evidence', 'thorough'), exist_ok=True)
+        with open(os.path.join(OUT, 'evidence', 'thorough', prop + '.json'), 'w') as f:
+            json.dump(evidence, f, indent=1, sort_keys=True, default=repr)
     print('%s tier=%s seed=%d runs=%d distinct=%d incomplete=%d wall=%.1fs faults=%s'
           % (prop, tier, base_seed, agg['runs'], len(agg['sigs']), agg['incomplete'], wall, dict(agg['faults'])))
     if reported:
